@@ -80,6 +80,7 @@ func main() {
 			oo.Trailer = false
 			oo.StdFraming = true
 		}
+		oo.TrailerNested = i%4 == 1
 		t := gen.RandTemplate(r, oo)
 		if i%7 == 0 {
 			t.MsgType = "A"
